@@ -276,9 +276,15 @@ def project(raw_path, crashed_ids=()):
         per.setdefault(e.get("tr"), []).append(e)
     out = {}
     for sid, evs in per.items():
-        if not evs or evs[0]["ev"] != "init" or evs[-1]["ev"] != "end" or sid in crashed_ids:
-            continue
         evs.sort(key=lambda e: e["seq"])
+        # the tracer's scenario id is process-global: leftovers of the previous scenario of this child may precede "init",
+        # and goroutines of this scenario may still log after its "end" line
+        while evs and evs[0]["ev"] != "init":
+            evs.pop(0)
+        ends = [i for i, e in enumerate(evs) if e["ev"] == "end"]
+        if not evs or not ends or sid in crashed_ids:
+            continue
+        evs = evs[:ends[0] + 1]
         a = []
         ini = evs[0]
         def have_list(kind, n):
